@@ -23,7 +23,9 @@ type Net struct {
 	cut   map[[2]peer.ID]bool
 	// OpenFail: scripted failures for the next NewStream calls per (from,to)
 	OpenFail map[[2]peer.ID]int
-	streams  int
+	// WriteFail: the next stream writes fail
+	WriteFail int
+	streams   int
 }
 
 func NewNet(w *World) *Net {
@@ -42,6 +44,14 @@ type Host struct {
 	id        peer.ID
 	handlers  map[protocol.ID]network.StreamHandler
 	cm        *ConnMgr
+	Label     string
+	epoch     int // bumped when the process behind this host dies; streams of older epochs are reset
+}
+
+// Kill models the death of the process: handlers vanish and every open stream is reset.
+func (h *Host) Kill() {
+	h.epoch++
+	h.handlers = map[protocol.ID]network.StreamHandler{}
 }
 
 func (n *Net) NewHost(id peer.ID) *Host {
@@ -92,19 +102,27 @@ func (h *Host) NewStream(ctx context.Context, p peer.ID, pids ...protocol.ID) (n
 		return nil, errors.New("simnet: protocols not supported")
 	}
 	h.net.streams++
-	pipe := &pipe{id: h.net.streams, wake: make(chan struct{}, 1)}
+	pipe := &pipe{id: h.net.streams, wake: make(chan struct{}, 1), ha: h, hb: r, ea: h.epoch, eb: r.epoch}
 	local := &Stream{p: pipe, w: h.net.W, self: h.id, remote: p, proto: pid, writer: true}
 	remote := &Stream{p: pipe, w: h.net.W, self: p, remote: h.id, proto: pid}
-	simrt.Go(func() { handler(remote) })
+	lbl := r.Label
+	simrt.Go(func() { simrt.SetLabel(lbl); handler(remote) })
 	return local, nil
 }
 
 type pipe struct {
+	ha, hb *Host
+	ea, eb int
 	id     int
 	buf    []byte
 	closed bool // writer closed: EOF after buf drained
 	reset  bool
 	wake   chan struct{}
+}
+
+// dead reports whether either end's process died since the stream was opened.
+func (p *pipe) dead() bool {
+	return (p.ha != nil && p.ha.epoch != p.ea) || (p.hb != nil && p.hb.epoch != p.eb)
 }
 
 func (p *pipe) signal() {
@@ -137,8 +155,12 @@ func (s *Stream) ID() string            { return fmt.Sprintf("s%d", s.p.id) }
 
 func (s *Stream) Write(b []byte) (int, error) {
 	simrt.Yield("stream.write")
-	if s.p.reset {
+	if s.p.reset || s.p.dead() {
 		return 0, network.ErrReset
+	}
+	if s.w.Net.WriteFail > 0 {
+		s.w.Net.WriteFail--
+		return 0, errors.New("simnet: injected write failure")
 	}
 	if s.w.Net.IsCut(s.self, s.remote) {
 		s.p.reset = true
@@ -153,7 +175,7 @@ func (s *Stream) Write(b []byte) (int, error) {
 func (s *Stream) Read(b []byte) (int, error) {
 	for {
 		simrt.Yield("stream.read")
-		if s.p.reset {
+		if s.p.reset || s.p.dead() {
 			return 0, network.ErrReset
 		}
 		if len(s.p.buf) > 0 {
@@ -213,14 +235,24 @@ type ConnMgr struct {
 	w    *World
 	self peer.ID
 	Tags map[string]int
+	Log  []CMCall
+}
+
+type CMCall struct {
+	Step    int
+	Protect bool
+	Peer    peer.ID
+	Tag     string
 }
 
 func (c *ConnMgr) Protect(id peer.ID, tag string) {
 	c.Tags[string(id)+"/"+tag]++
+	c.Log = append(c.Log, CMCall{Step: c.w.S.Steps, Protect: true, Peer: id, Tag: tag})
 	c.w.Logf("connmgr %s protect %s", short(c.self), tag)
 }
 func (c *ConnMgr) Unprotect(id peer.ID, tag string) bool {
 	k := string(id) + "/" + tag
+	c.Log = append(c.Log, CMCall{Step: c.w.S.Steps, Protect: false, Peer: id, Tag: tag})
 	c.w.Logf("connmgr %s unprotect %s", short(c.self), tag)
 	if c.Tags[k] > 0 {
 		delete(c.Tags, k)
